@@ -6,7 +6,12 @@
 //!  * `serialize_response`: reference response serialiser (C05, C06),
 //!  * `read_responses`: independent response reader (C05, C07, C08, C13 ...).
 
+/// the connection's receive window / line limit: 1024 in the shipped build, 64 in the
+/// `micro_http_verif = "small"` build (hook H3)
+#[cfg(not(micro_http_verif = "small"))]
 pub const WINDOW: usize = 1024;
+#[cfg(micro_http_verif = "small")]
+pub const WINDOW: usize = 64;
 
 #[derive(Clone, Debug, PartialEq, Eq)]
 pub enum EK {
